@@ -62,6 +62,10 @@ def run(vc):
         for el, var in (("bus", "vm_pu"), ("line", "loading_percent"), ("trafo", "loading_percent")):
             p.prove(f"n0[{el}]", _eq_x(cr.raw(el).raw(var).e, net.fields.raw(f"res_{el}").cols[var]), meta=dict(clause="n0"))
     vc.explore("_update_contingency_results_parallel[n0]", h0)
+    for parallel in (False, True):
+        vc.explore(f"_update_contingency_results_parallel[{'parallel' if parallel else 'sequential'},later,line,trafo without limit column]",
+                   lambda p, parallel=parallel: step_harness(p, f"{CP}:_update_contingency_results_parallel", rv, False, "line", parallel,
+                                                             no_limit=("trafo",)), max_paths=300)
 
     # worker: evaluates a copy, never writes the caller's tables
     for fails in (False, True):
